@@ -145,6 +145,19 @@ func totalAlloc() uint64 {
 	return s[0].Value.Uint64()
 }
 
+// stackBytes is the memory currently reserved for goroutine stacks. A call that recursed deeply
+// leaves the calling goroutine with a grown stack (it shrinks at a later collection only).
+func stackBytes() uint64 {
+	s := []metrics.Sample{{Name: "/memory/classes/heap/stacks:bytes"}}
+	metrics.Read(s)
+	if s[0].Value.Kind() != metrics.KindUint64 {
+		return 0
+	}
+	return s[0].Value.Uint64()
+}
+
+const runawayStackBytes = 64 << 20 // a call may not grow the stacks by more than this for a small input
+
 // harnessPanic is raised (as a panic value) when the harness itself is at fault.
 type harnessPanic struct{ msg string }
 
@@ -152,6 +165,7 @@ type harnessPanic struct{ msg string }
 // its results). It returns a finding for a recovered panic or a runaway allocation.
 func guard(entry string, inputLen int, fn func()) (f *finding) {
 	before := totalAlloc()
+	stackBefore := stackBytes()
 	defer func() {
 		if r := recover(); r != nil {
 			if hp, ok := r.(harnessPanic); ok {
@@ -174,6 +188,11 @@ func guard(entry string, inputLen int, fn func()) (f *finding) {
 			f = &finding{Key: "C12:runaway-allocation:" + entry,
 				Msg: fmt.Sprintf("%s allocated >= %d MiB for an input of %d bytes (limit %d MiB for inputs below %d MiB)", entry, d>>26<<6, inputLen, runawayBytes>>20, runawayInputMax>>20)}
 			debug.FreeOSMemory() // give the gigabytes back before the next case
+		}
+		if sb := stackBytes(); f == nil && sb > stackBefore && sb-stackBefore > runawayStackBytes && inputLen < runawayInputMax {
+			f = &finding{Key: "C12:runaway-allocation:stack:" + entry,
+				Msg: fmt.Sprintf("%s grew the goroutine stacks by >= %d MiB for an input of %d bytes (unbounded recursion on input; limit %d MiB)", entry, (sb-stackBefore)>>24<<4, inputLen, runawayStackBytes>>20)}
+			runtime.GC()
 		}
 	}()
 	fn()
